@@ -1,6 +1,7 @@
 package main
 
 import (
+	"bytes"
 	"github.com/grafana/carbon-relay-ng/route"
 	"crypto/md5"
 	"fmt"
@@ -184,6 +185,28 @@ func init() {
 func init() {
 	subs["match"] = func(args []string) {
 		scanLines(func(f []string, raw string) {
+			if f[0] == "torn" {
+				// a destination's filter is replaced while a dispatcher evaluates it (C18): torn <name length> <delay ms>
+				// old filter: regex a+$ (accepts, slow on a long name), notRegex ^a (rejects); new filter: regex ^b (rejects).
+				// Whatever the interleaving, the name must be rejected: by the old filter or by the new one.
+				ln, _ := strconv.Atoi(f[1])
+				delay, _ := strconv.Atoi(f[2])
+				name := bytes.Repeat([]byte("a"), ln)
+				m, _ := matcher.New("", "", "", "", "a+$", "^a")
+				d, err := destination.New("torn", m, "127.0.0.1:9", "/tmp", false, false, time.Second, time.Hour, 10, 100, 10, 1000, 10, time.Second, time.Millisecond, time.Millisecond)
+				if err != nil {
+					emit("err")
+					return
+				}
+				res := make(chan bool)
+				t0 := time.Now()
+				go func() { res <- d.Match(name) }()
+				time.Sleep(time.Duration(delay) * time.Millisecond)
+				d.Update(map[string]string{"regex": "^b", "notRegex": ""})
+				r := <-res
+				emit("torn %v %d", r, time.Since(t0)/time.Millisecond)
+				return
+			}
 			if f[0] == "u" {
 				// filter updated at run time (modRoute / modDest): u <6 options> <6 updates: '=' keeps, else the new value> <name>
 				// -> route.Match, dest.Match after the update, and Match of a matcher built afresh from the final options
